@@ -58,18 +58,18 @@ type Event struct {
 // RPCRec is what was observed for one RPC.
 type RPCRec struct {
 	// client side
-	SendAttempt  []string // tags handed to SendMsg, in call order
-	SendRes      []string
-	CliRecv      []string // tags obtained from successful receives, in order
-	RecvRes      []string // result of every RecvMsg / Invoke, in order
-	FinalErr     string   // first non-nil result of RecvMsg / the result of Invoke
-	Finals       []string // every non-nil receive result
-	HeaderRes    []string // result of every Header() call
-	HeaderMD     []string
-	TrailerMD    []string // result of every Trailer() call
-	OptHeader    string   // what the grpc.Header option target holds at the end
-	OptTrailer   string
-	NewStreamErr string
+	SendAttempt    []string // tags handed to SendMsg, in call order
+	SendRes        []string
+	CliRecv        []string // tags obtained from successful receives, in order
+	RecvRes        []string // result of every RecvMsg / Invoke, in order
+	FinalErr       string   // first non-nil result of RecvMsg / the result of Invoke
+	Finals         []string // every non-nil receive result
+	HeaderRes      []string // result of every Header() call
+	HeaderMD       []string
+	TrailerMD      []string // result of every Trailer() call
+	OptHeader      string   // what the grpc.Header option target holds at the end
+	OptTrailer     string
+	NewStreamErr   string
 	HdrAtFirstRecv string // grpc.Header option target right after the first successful receive
 	TrlAtFinal     string // grpc.Trailer option target right after the receive that reported the final status
 	// handler side
